@@ -74,6 +74,13 @@ theorem remaining_unlimited (a : Acc α) (k fuel : Nat) (r : Tot α) (n : Nat)
     cases hloop
     exact ⟨rfl, he⟩
 
+/-- `k` consecutive calls of `spend(e, d)` on the same accountant (what the property's quantifier text does) -/
+def spendK (a : Acc α) (e d : α) : Nat → Except Err (Acc α)
+  | 0 => .ok a
+  | j + 1 => match a.spend e d with
+    | .ok a' => spendK a' e d j
+    | .error x => .error x
+
 end generic
 
 /-! ## Part 2 — over ℝ -/
@@ -266,6 +273,95 @@ theorem remaining_converged (a : Acc ℝ) (k fuel : Nat) (r : Tot ℝ) (n : Nat)
     rw [h1] at hup
     exact ⟨hlo, hup⟩
 
+/-! ### from `total ≤ ceiling` to "`spend` accepts `k` times in a row" -/
+
+/-- over ℝ, `k` consecutive `spend(x, d)` calls are all accepted — and record exactly those `k` spends — as soon as
+the total after all `k` of them is within the ceiling (the intermediate totals are smaller by C05's monotonicity);
+`x` positive and not below the accountant's minimum spend, history and slack validated as the constructor does -/
+theorem spendK_accepts (k : Nat) : ∀ (a : Acc ℝ) (x d : ℝ),
+    (∀ sp ∈ a.spent, checkEpsDelta sp.eps sp.delta = .ok ()) →
+    0 < x → a.minEps ≤ x → 0 ≤ d → d ≤ 1 → 0 ≤ a.slack → a.slack ≤ 1 →
+    (totalCore (a.spent ++ List.replicate k ⟨x, d⟩) a.slack).eps ≤ a.ceilEps →
+    (totalCore (a.spent ++ List.replicate k ⟨x, d⟩) a.slack).delta ≤ a.ceilDelta →
+    spendK a x d k = .ok { a with spent := a.spent ++ List.replicate k ⟨x, d⟩ } := by
+  induction k with
+  | zero => intro a x d _ _ _ _ _ _ _ _ _; simp [spendK]
+  | succ j ih =>
+    intro a x d hvalid hx hmin hd0 hd1 hs0 hs1 heps hdel
+    have hsplit : a.spent ++ List.replicate (j + 1) ⟨x, d⟩ = (a.spent ++ [⟨x, d⟩]) ++ List.replicate j ⟨x, d⟩ := by
+      rw [List.replicate_succ, List.append_cons]
+    rw [hsplit] at heps hdel
+    have hx1 := checkEpsDelta_of x d hx.le hd0 hd1 (by linarith)
+    have hvalid' : ∀ sp ∈ a.spent ++ [⟨x, d⟩], checkEpsDelta sp.eps sp.delta = .ok () := by
+      intro sp hsp
+      rcases List.mem_append.mp hsp with h | h
+      · exact hvalid sp h
+      · rw [List.mem_singleton.mp h]; exact hx1
+    have hdl : ∀ sp ∈ a.spent ++ [⟨x, d⟩], sp.delta ≤ 1 :=
+      fun sp hsp => (checkEpsDelta_ok sp.eps sp.delta (hvalid' sp hsp)).2.2.1
+    have hpre := totalCore_le_append_replicate (a.spent ++ [⟨x, d⟩]) a.slack x d j hdl hs0 hs1 hx.le hd0 hd1
+    have hchk : a.check x d = .ok () :=
+      check_accepts a x d hvalid hx.le hd0 hd1 (by linarith) (fun h => absurd hmin (not_le.mpr h.2)) hs0 hs1
+        (hpre.1.trans heps) (hpre.2.trans hdel)
+    have hsp : a.spend x d = .ok { a with spent := a.spent ++ [⟨x, d⟩] } := by
+      simp only [Acc.spend, bind, Except.bind, hchk, pure, Except.pure]
+    simp only [spendK, hsp]
+    rw [ih { a with spent := a.spent ++ [⟨x, d⟩] } x d hvalid' hx hmin hd0 hd1 hs0 hs1 heps hdel, hsplit]
+
+/-- `remaining_spendable`, in terms of `spend` itself: every epsilon `x` at least half a final bracket below the
+returned one (positive, not below the minimum spend) can be spent `k` times in a row with delta 0 on an accountant
+whose own total is within its ceiling -/
+theorem remaining_spendable_accepts (a : Acc ℝ) (k fuel : Nat) (r : Tot ℝ) (n : Nat)
+    (h : a.remaining k fuel = .ok (r, n))
+    (hvalid : ∀ sp ∈ a.spent, checkEpsDelta sp.eps sp.delta = .ok ())
+    (hc : 0 ≤ a.ceilEps) (hfit : (totalCore a.spent a.slack).eps ≤ a.ceilEps)
+    (hfitd : (totalCore a.spent a.slack).delta ≤ a.ceilDelta)
+    (hs0 : 0 ≤ a.slack) (hs1 : a.slack ≤ 1) (x : ℝ) (hx0 : 0 < x) (hmin : a.minEps ≤ x)
+    (hx : x ≤ r.eps - a.ceilEps / 2 ^ (n + 1)) :
+    spendK a x 0 k = .ok { a with spent := a.spent ++ List.replicate k ⟨x, 0⟩ } := by
+  apply spendK_accepts k a x 0 hvalid hx0 hmin le_rfl zero_le_one hs0 hs1
+  · exact remaining_spendable a k fuel r n h hc hfit hs0 hs1 x hx0.le hx
+  · rw [totalCore_delta] at hfitd ⊢
+    simpa [List.map_append, List.prod_append, List.map_replicate, List.prod_replicate] using hfitd
+
+/-- if `k + 1` consecutive `spend(x, d)` calls were all accepted, the total including all of them is within the
+ceiling (it is what the last `check` tested) -/
+theorem spendK_ok_total_le (k : Nat) : ∀ (a a' : Acc ℝ) (x d : ℝ), spendK a x d (k + 1) = .ok a' →
+    (totalCore (a.spent ++ List.replicate (k + 1) ⟨x, d⟩) a.slack).eps ≤ a.ceilEps := by
+  induction k with
+  | zero =>
+    intro a a' x d h
+    simp only [spendK] at h
+    split at h
+    · rename_i a1 h1
+      exact (check_ok_total_le a x d (spend_ok a a1 x d h1).2).1
+    · cases h
+  | succ j ih =>
+    intro a a' x d h
+    rw [spendK] at h
+    split at h
+    · rename_i a1 h1
+      obtain ⟨rfl, -⟩ := spend_ok a a1 x d h1
+      have := ih _ a' x d h
+      rw [List.replicate_succ (n := j + 1), List.append_cons]
+      exact this
+    · cases h
+
+/-- `remaining_maximal`, in terms of `spend` itself: when the returned epsilon is more than half a final bracket
+below the ceiling, `k` spends of any epsilon `x` at least half a bracket above it are refused at some step — the
+only way all `k` are accepted is that the total lands exactly on the ceiling -/
+theorem remaining_maximal_refuses (a : Acc ℝ) (k fuel : Nat) (r : Tot ℝ) (n : Nat)
+    (h : a.remaining k fuel = .ok (r, n))
+    (hc : 0 ≤ a.ceilEps) (hfit : (totalCore a.spent a.slack).eps ≤ a.ceilEps)
+    (hs0 : 0 ≤ a.slack) (hs1 : a.slack ≤ 1)
+    (hbelow : r.eps + a.ceilEps / 2 ^ (n + 1) < a.ceilEps)
+    (x : ℝ) (hx : r.eps + a.ceilEps / 2 ^ (n + 1) ≤ x) (a' : Acc ℝ) (hacc : spendK a x 0 k = .ok a') :
+    afterK a.spent a.slack k x = a.ceilEps := by
+  have hk : 1 ≤ k := (remaining_ok a k fuel r n h).1
+  obtain ⟨j, rfl⟩ : ∃ j, k = j + 1 := ⟨k - 1, by omega⟩
+  exact le_antisymm (spendK_ok_total_le j a a' x 0 hacc)
+    (remaining_maximal a (j + 1) fuel r n h hc hfit hs0 hs1 hbelow x hx)
+
 /-! ### `remaining` does not grow when a spend is recorded -/
 
 /-- one bisection step stays inside the bracket -/
@@ -410,5 +506,30 @@ example : (⟨1, 1 / 2, 0, 0, [⟨1 / 2, 0⟩]⟩ : Acc ℝ).remaining 1 10 = .o
   norm_num [Acc.remaining, Acc.total, Acc.remLoop, Acc.remStep, totalGiven, totalCore, epsSums, totalDeltaSafe,
     sortAsc, insertSorted, mkBudget, checkEpsDelta, feq, bind, Except.bind, pure, Except.pure, List.forM,
     List.replicate, List.foldl]
+
+/-- the hypotheses of `remaining_spendable_accepts` are jointly satisfiable: on the accountant of the first example
+(remaining 3/4 after one halving, half a bracket = 1/4) one spend of 1/2 is accepted -/
+example : spendK (⟨1, 1 / 2, 0, 0, [⟨1 / 4, 0⟩]⟩ : Acc ℝ) (1 / 2) 0 1 =
+    .ok ⟨1, 1 / 2, 0, 0, [⟨1 / 4, 0⟩] ++ List.replicate 1 ⟨1 / 2, 0⟩⟩ := by
+  have hrem : (⟨1, 1 / 2, 0, 0, [⟨1 / 4, 0⟩]⟩ : Acc ℝ).remaining 1 1 = .ok (⟨3 / 4, 1 / 2⟩, 1) := by
+    norm_num [Acc.remaining, Acc.total, Acc.remLoop, Acc.remStep, totalGiven, totalCore, epsSums, totalDeltaSafe,
+      sortAsc, insertSorted, mkBudget, checkEpsDelta, feq, bind, Except.bind, pure, Except.pure, List.forM,
+      List.replicate, List.foldl]
+  refine remaining_spendable_accepts _ 1 1 _ 1 hrem ?_ ?_ ?_ ?_ ?_ ?_ (1 / 2) ?_ ?_ ?_
+  · intro sp hsp
+    rw [List.mem_singleton.mp hsp]
+    exact checkEpsDelta_of _ _ (by norm_num) (by norm_num) (by norm_num) (by norm_num)
+  · norm_num
+  · rw [totalCore_eps_zero]; norm_num
+  · rw [totalCore_delta]; norm_num
+  · norm_num
+  · norm_num
+  · norm_num
+  · norm_num
+  · norm_num
+
+/-- the hypothesis of `remaining_unlimited` is satisfiable (over ℝ only by the zero ceiling; on doubles by `inf`,
+which is what the driver exhibits: 0 iterations, `(inf, 1.0)`) -/
+example : ¬ ((0 : ℝ) - 0 < (0 - 0) * 2) := by norm_num
 
 end DPL.C18
